@@ -11,7 +11,7 @@ from pyvc.values import V
 CO = "elexmodel.models.ConformalElectionModel.ConformalElectionModel"
 LEVEL = "proof"
 ASSUMPTIONS = [
-    "A-QR: failures of the solver surface as cvxpy.error.SolverError or as a cvxpy UserWarning (turned into an error by the module-level warnings filter)",
+    "A-QR: failures of the solver surface as cvxpy.error.SolverError or as cvxpy's UserWarning 'Solution may be inaccurate' (that the module-level filter turns THAT warning into an error, whatever module cvxpy attributes it to, is an obligation of unit reach, replayed on the real cvxpy code path); the unregularised path (scipy HiGHS) reports no inaccuracy at all",
     "the signature of QuantileRegressionSolver.fit is read from the INSTALLED elexsolver source on every run",
     "not decided (DESIGN section 5): numerical agreement of the un-normalised re-solve with the original solve ('the same tables')",
 ]
@@ -127,19 +127,77 @@ def retry_twice(h):
     h.ensures("second_failing_fit_is_retried_too", len(model2.calls) == 2 and model2.calls[1]["normalize_weights"] is False, why=f"{len(model2.calls)} solve attempt(s) for the second failing fit", replay=lambda ev: {"target": "verif_replays:fit_model_twice", "args": ["SolverError"], "check": "result['ok']"})
 
 
+def _bounds_run(fail_call, kindname):
+    @unit("C20", f"interval_bounds.failing_solve_{fail_call}.{kindname}", fns=[f"{CO}.get_unit_prediction_interval_bounds", f"{CO}.fit_model"])
+    def bounds(h):
+        """the real caller of the two interval fits (get_unit_prediction_interval_bounds, through the nonparametric
+        get_unit_prediction_intervals) with the solver failing at solve number `fail_call` of the run: the run completes, the
+        failed fit -- and only it -- is repeated on the SAME solver object with the same quantile and without weight
+        normalisation, and the bounds that come out are the predictions of the lower-level and of the upper-level fit"""
+        import contracts.C03 as C03
+        from pyvc.values import real
+
+        h.interp.fault_plan = {"fail_call": fail_call, "kind": kindname}
+        h.default_replay = lambda ev: {"target": "verif_replays:failing_solve_tables_replay", "args": [], "check": "result['exc'] is None and result['ok']"}
+        t, self, alpha, kind, res = C03.run_np_intervals(h)
+        if kind == "raise":
+            return h.fail("the_run_completes", f"raised {res}")
+        h.ensures("the_run_completes", True)
+        qs = h.interp.qr_models
+        h.ensures("one_solver_object_per_bound", len(qs) == 2, why=f"{len(qs)} solver objects")
+        if len(qs) != 2:
+            return
+        failed, other = (qs[0], qs[1]) if fail_call == 0 else (qs[1], qs[0])
+        h.ensures("only_the_failed_fit_is_repeated", len(failed.calls) == 2 and len(other.calls) == 1, why=f"{[len(q.calls) for q in qs]} solves per solver object")
+        if len(failed.calls) != 2 or len(other.calls) != 1:
+            return
+        a, b = failed.calls
+        h.ensures("retry.same_quantile", V(to_t(a["taus"]) == to_t(b["taus"])))
+        h.ensures("retry.same_x_y_weights_lambda_intercept", _same(a["x"], b["x"]) and _same(a["y"], b["y"]) and _same(a["weights"], b["weights"]) and z3.eq(to_t(a["lambda_"]), to_t(b["lambda_"])) and z3.eq(to_b(a["fit_intercept"]), to_b(b["fit_intercept"])))
+        h.ensures("retry.without_weight_normalisation", b["normalize_weights"] is False and a["normalize_weights"] is not False)
+        h.ensures("levels_of_the_two_fits", V(real(qs[0].calls[-1]["taus"].t) == (1 - alpha.t) / 2) & V(real(qs[1].calls[-1]["taus"].t) == (1 + alpha.t) / 2))
+        # "the same tables it would otherwise produce": the reported bounds are built from the lower-level fit and from the
+        # upper-level fit exactly as without a fault (the formula obligation of C04, here under the fault)
+        rows = z3.And(*t.nonrep.axis.facts())
+        c = z3.Real("population_correction")
+        lraw, uraw = qs[0].predict(C03._holdout(h, t)), qs[1].predict(C03._holdout(h, t))
+        want_l = z3.If((lraw.t - c) * t.last + t.last >= t.res, (lraw.t - c) * t.last + t.last, t.res)
+        want_u = z3.If((uraw.t + c) * t.last + t.last >= t.res, (uraw.t + c) * t.last + t.last, t.res)
+        from pyvc.theory_np import round_half_even_t
+
+        h.ensures("bounds_come_from_the_fit_of_their_own_level", z3.Implies(rows, z3.And(res.lower.t == z3.ToReal(round_half_even_t(want_l)), res.upper.t == z3.ToReal(round_half_even_t(want_u)))))
+
+    return bounds
+
+
+for _k in ("SolverError", "UserWarning"):
+    for _i in (0, 1):
+        _bounds_run(_i, _k)
+
+
 @unit("C20", "reach", fns=[f"{CO}.fit_model"])
 def reach(h):
     """both failure kinds reach the handler, and every fit of a run goes through fit_model"""
     mod = source.module("elexmodel.models.ConformalElectionModel")
-    found = False
+    found, by_module_only = False, False
     for n in mod.tree.body:
         if isinstance(n, ast.Expr) and isinstance(n.value, ast.Call) and ast.unparse(n.value.func) == "warnings.filterwarnings":
             c = n.value
             action = c.args[0].value if c.args and isinstance(c.args[0], ast.Constant) else None
-            kws = {k.arg: ast.unparse(k.value) for k in c.keywords}
-            if action == "error" and kws.get("category") == "UserWarning" and "cvxpy" in kws.get("module", ""):
-                found = True
-    h.ensures("warning_is_an_error_at_import", found)
+            kws = {k.arg: k.value for k in c.keywords}
+            cat = ast.unparse(kws["category"]) if "category" in kws else "Warning"
+            msg = kws["message"].value if "message" in kws and isinstance(kws["message"], ast.Constant) else None
+            if action == "error" and cat in ("UserWarning", "Warning"):
+                import re as _re
+
+                # the filter must recognise cvxpy's warning by its TEXT: which module a warning is attributed to is decided
+                # by the library that issues it (cvxpy >= 1.7 attributes it to its caller, elexsolver) -- finding F15
+                if msg is not None and _re.match(msg, "Solution may be inaccurate. Try another solver, adjusting the solver settings, or solve with verbose=True for more information.", _re.I) and "module" not in kws:
+                    found = True
+                elif "module" in kws:
+                    by_module_only = True
+    rp_inacc = lambda ev: {"target": "verif_replays:inaccurate_solution_replay", "args": [], "check": "result['exc'] is None and result['ok']"}  # noqa: E731
+    h.ensures("inaccurate_solution_warning_is_an_error_at_import_whatever_module_it_is_attributed_to", found, why="the module-level filter is keyed on the module the warning is attributed to" if by_module_only else "no module-level filter turns cvxpy's 'Solution may be inaccurate' warning into an error", replay=rp_inacc)
     fs = source.load(f"{CO}.fit_model")
     tries = [n for n in ast.walk(fs.node) if isinstance(n, ast.Try)]
     ok = False
